@@ -882,11 +882,13 @@ defvjp_argnum(anp.einsum, grad_einsum)
 
 defvjp(
     anp.diagonal,
-    lambda ans, A, offset=0, axis1=0, axis2=1: lambda g: anp.make_diagonal(g, offset, axis1, axis2),
+    lambda ans, A, offset=0, axis1=0, axis2=1: lambda g: anp.make_diagonal(
+        g, offset, axis1, axis2, shape=anp.shape(A)
+    ),
 )
 defvjp(
     anp.make_diagonal,
-    lambda ans, D, offset=0, axis1=0, axis2=1: lambda g: anp.diagonal(g, offset, axis1, axis2),
+    lambda ans, D, offset=0, axis1=0, axis2=1, shape=None: lambda g: anp.diagonal(g, offset, axis1, axis2),
 )
 
 
